@@ -14,6 +14,9 @@ Reading guide:
 * `Tie.source_*_refines_model`  the Lean translations of `validatePluginName`, `binName`,
                        `parsePluginName`, `CLIManager.Get`, `CLIManager.Uninstall` (regenerated from the Go
                        source on every run, `Generated/SrcC16.lean`) compute what the model computes;
+* `physRoot_of_no_link_on_way`, `linked_root_confined`, `linked_root_listing`
+                       a plugin root that is (or lies behind) a symbolic link: the operations work in the
+                       directory the links lead to; links that are not on the root's way do not matter;
 * `model_holds`        every clause of `Holds` for every input (worlds with symbolic links - to files,
                        to directories, to executables, dangling - anywhere, in particular inside a
                        left-over `<root>/<name>`, included).
@@ -628,6 +631,131 @@ theorem list_real_dirs (i : Input) (x : Text) :
 theorem list_is_pure (i : Input) : (runList i).err = false ∧ (runList i).executed = [] ∧ (runList i).changed = [] := by
   simp [runList]
 
+/-! ### a plugin root reached through symbolic links -/
+
+/-- no link lies on the way `done/todo₁/…/todoₖ` -/
+def NoLinkOnWay (fs : List Node) (done todo : List Text) : Prop :=
+  ∀ k, k < todo.length → ∀ n, lookup fs (pathOf (done ++ todo.take (k + 1))) = some n → n.kind.isLink = false
+
+theorem walk_no_link_on_way (fs : List Node) : ∀ (fuel : Nat) (done todo : List Text),
+    NoLinkOnWay fs done todo → walk fs fuel done todo false = none
+  | 0, _, _, _ => rfl
+  | _ + 1, _, [], _ => by simp [walk]
+  | fuel + 1, done, c :: rest, h => by
+    have h0 := h 0 (by simp)
+    have hrec : NoLinkOnWay fs (done ++ [c]) rest := by
+      intro k hk n hn
+      refine h (k + 1) (by simpa using hk) n ?_
+      simpa [List.take_succ_cons, List.append_assoc] using hn
+    have ih := walk_no_link_on_way fs fuel (done ++ [c]) rest hrec
+    unfold walk
+    cases hl : lookup fs (pathOf (done ++ [c])) with
+    | none => simpa using ih
+    | some n =>
+      have : n.kind.isLink = false := h0 n (by simpa using hl)
+      simpa [this] using ih
+
+/-- **links elsewhere do not matter**: when no symbolic link lies on the way of the (cleaned) plugin
+root - whatever links the world holds below `<root>/<name>`, in the install source or anywhere else -
+the directory the root IS is the root as given: rounds 1-7 (lexical roots) are the special case. -/
+theorem physRoot_of_no_link_on_way (fs : List Node) (root : Text)
+    (h : NoLinkOnWay fs [] (rootComps root)) : physRoot fs root = root := by
+  simp [physRoot, walk_no_link_on_way fs _ _ _ h]
+
+/-- in particular in a world without any symbolic link -/
+theorem physRoot_of_no_links (fs : List Node) (root : Text)
+    (h : ∀ n ∈ fs, n.kind.isLink = false) : physRoot fs root = root :=
+  physRoot_of_no_link_on_way fs root (fun _ _ n hn => h n (lookup_some hn).1)
+
+theorem NoLinkOnWay.tail {fs : List Node} {done : List Text} {c : Text} {rest : List Text}
+    (h : NoLinkOnWay fs done (c :: rest)) : NoLinkOnWay fs (done ++ [c]) rest := by
+  intro k hk n hn
+  refine h (k + 1) (by simpa using hk) n ?_
+  simpa [List.take_succ_cons, List.append_assoc] using hn
+
+theorem walk_followed_no_link (fs : List Node) : ∀ (fuel : Nat) (done todo : List Text),
+    NoLinkOnWay fs done todo → todo.length < fuel → walk fs fuel done todo true = some (done ++ todo)
+  | 0, _, _, _, hf => absurd hf (Nat.not_lt_zero _)
+  | _ + 1, _, [], _, _ => by simp [walk]
+  | fuel + 1, done, c :: rest, h, hf => by
+    have h0 := h 0 (by simp)
+    have ih := walk_followed_no_link fs fuel (done ++ [c]) rest h.tail (by simpa using hf)
+    unfold walk
+    cases hl : lookup fs (pathOf (done ++ [c])) with
+    | none => simpa using ih
+    | some n =>
+      have : n.kind.isLink = false := h0 n (by simpa using hl)
+      simpa [this] using ih
+
+theorem walk_prefix (fs : List Node) : ∀ (cs : List Text) (fuel : Nat) (done rest : List Text) (f : Bool),
+    NoLinkOnWay fs done cs → walk fs (fuel + cs.length) done (cs ++ rest) f = walk fs fuel (done ++ cs) rest f
+  | [], _, _, _, _, _ => by simp
+  | c :: cs, fuel, done, rest, f, h => by
+    have h0 := h 0 (by simp)
+    have ih := walk_prefix fs cs fuel (done ++ [c]) rest f h.tail
+    have e : fuel + (c :: cs).length = (fuel + cs.length) + 1 := by simp; omega
+    rw [e, List.cons_append, walk]
+    cases hl : lookup fs (pathOf (done ++ [c])) with
+    | none => simpa using ih
+    | some n =>
+      have : n.kind.isLink = false := h0 n (by simpa using hl)
+      simpa [this] using ih
+
+theorem le_sum_of_mem {α : Type} (f : α → Nat) : ∀ (l : List α) (a : α), a ∈ l → f a ≤ (l.map f).sum
+  | [], _, h => by cases h
+  | b :: r, a, h => by
+    rcases List.mem_cons.1 h with e | e
+    · subst e; simp
+    · have := le_sum_of_mem f r a e
+      simp only [List.map_cons, List.sum_cons]; omega
+
+/-- **the plugin root is a symbolic link** (`~/.config/notation/plugins -> /vol/x/plugins`): when the last
+component of the cleaned root is a link of the world - whatever kind - with no further link on the
+way to it or on the way of its target, the directory the root IS is the target: that is where the
+model lists, looks up, installs and removes (for every world, root and target). -/
+theorem physRoot_root_is_link (fs : List Node) (root : Text) (cs : List Text) (c : Text) (n : Node)
+    (hr : rootComps root = cs ++ [c]) (hanc : NoLinkOnWay fs [] cs)
+    (hl : lookup fs (pathOf (cs ++ [c])) = some n) (hk : n.kind.isLink = true)
+    (ht : NoLinkOnWay fs [] (comps n.target)) :
+    physRoot fs root = pathOf (comps n.target) := by
+  have hm := le_sum_of_mem (fun n : Node => (comps n.target).length + 1) fs n (lookup_some hl).1
+  have hfuel : walkFuel fs (cs ++ [c]) =
+      (((fs.map (fun n : Node => (comps n.target).length + 1)).sum + 1) + 1) + cs.length := by
+    simp [walkFuel]; omega
+  have h1 := walk_prefix fs cs (((fs.map (fun n : Node => (comps n.target).length + 1)).sum + 1) + 1) [] [c] false hanc
+  have h2 := walk_followed_no_link fs ((fs.map (fun n : Node => (comps n.target).length + 1)).sum + 1) []
+    (comps n.target) ht (by have := hm; omega)
+  simp only [physRoot, hr, hfuel, h1, List.nil_append]
+  rw [walk]
+  simp only [hl, hk, if_true, List.append_nil, h2, List.nil_append]
+
+/-- **a linked plugin root**: the operation the model observes runs in the world the history left,
+against the PHYSICAL root - the directory the handed path resolves to through the links of the
+world -, and the clauses are stated of that directory. -/
+theorem eff_root (i : Input) : (eff i).root = physRoot i.fs (absRoot i) := rfl
+
+/-- **linked_root_confined**: for a plugin root that is (or lies behind) a symbolic link, whatever
+an operation changes lies in `<physical root>/<name>`, and whatever it runs is
+`<physical root>/<name>/notation-<name>` (or the install source): the link is followed, never
+replaced, removed or treated as "not a directory". -/
+theorem linked_root_confined (i : Input) (hop : i.op ≠ .list) :
+    (∀ p ∈ (run i).changed, ∃ n, effName (eff i) = some n ∧ singleComponent n = true ∧
+      inPluginDir (physRoot i.fs (absRoot i)) n p = true) ∧
+    (∀ p ∈ (run i).executed, ∃ n, effName (eff i) = some n ∧ singleComponent n = true ∧
+      (isPluginExe (physRoot i.fs (absRoot i)) n p = true ∨ (i.op = .install ∧ under i.src p = true))) :=
+  effects_confined (eff i) hop
+
+/-- **linked_root_listing**: the listing through a linked root is the listing of the physical root:
+exactly the real sub-directories of the directory the link leads to. -/
+theorem linked_root_listing (i : Input) (h : i.op = .list) (x : Text) :
+    x ∈ (run i).listed ↔
+      ∃ n ∈ (eff i).fs, n.kind = .dir ∧ comps n.path = rootComps (physRoot i.fs (absRoot i)) ++ [x] := by
+  have : run i = runList (eff i) := by
+    have h' : (eff i).op = .list := h
+    simp [run, runOp, h']
+  rw [this]
+  exact list_real_dirs (eff i) x
+
 /-! ### non-vacuity -/
 
 /-- (marker: a failure reported under this name is a failure of one of the `example`s below) -/
@@ -730,6 +858,46 @@ example : run { op := .verify, root := "/h/lib/plugins".toList, name := "tool".t
     errObs := by decide
 example : Holds { op := .verify, root := "/h/lib/plugins".toList, name := "tool".toList, src := [], overwrite := false, trusted := true, cwd := [], path := ["/opt/pbin".toList], peers := [], history := [], fs := envFS }
     { err := false, executed := ["/opt/pbin/notation-tool".toList], changed := [], listed := [], chmod := [] } = false := by decide
+
+/-- the configured plugin root `/cfg/plugins` is a symbolic link to `/vol/x/plugins`; `/cfg/chain` leads
+there through a second link, `/cfg/notation` is a linked ancestor -/
+def linkedFS : List Node :=
+  [ ⟨"/cfg".toList, .dir, 0, []⟩, ⟨"/cfg/plugins".toList, .symdir, 0, "/vol/x/plugins".toList⟩,
+    ⟨"/cfg/chain".toList, .symdir, 0, "/cfg/plugins".toList⟩, ⟨"/cfg/notation".toList, .symdir, 0, "/vol/x".toList⟩,
+    ⟨"/cfg/victim".toList, .dir, 0, []⟩,
+    ⟨"/vol".toList, .dir, 0, []⟩, ⟨"/vol/x".toList, .dir, 0, []⟩, ⟨"/vol/x/plugins".toList, .dir, 0, []⟩,
+    ⟨"/vol/x/plugins/alpha".toList, .dir, 0, []⟩, ⟨"/vol/x/plugins/alpha/notation-alpha".toList, .exec, 1, []⟩,
+    ⟨"/vol/x/plugins/beta".toList, .dir, 0, []⟩, ⟨"/vol/x/plugins/linked".toList, .symdir, 0, "/outside/dir".toList⟩,
+    ⟨"/vol/x/plugins/README".toList, .file, 1, []⟩,
+    ⟨"/outside".toList, .dir, 0, []⟩, ⟨"/outside/dir".toList, .dir, 0, []⟩,
+    ⟨"/dl".toList, .dir, 0, []⟩, ⟨"/dl/notation-new".toList, .exec, 2, []⟩ ]
+
+example : physRoot linkedFS "/cfg/plugins/".toList = "/vol/x/plugins".toList ∧
+    physRoot linkedFS "/cfg/chain".toList = "/vol/x/plugins".toList ∧
+    physRoot linkedFS "/cfg/notation/plugins".toList = "/vol/x/plugins".toList ∧
+    physRoot linkedFS "/vol/x/plugins/".toList = "/vol/x/plugins/".toList := by decide
+
+/-- the listing through the linked root: the real sub-directories of the directory it leads to -/
+example : run { op := .list, root := "/cfg/plugins".toList, name := [], src := [], overwrite := false, trusted := true, cwd := [], path := [], peers := [], history := [], fs := linkedFS } =
+    { err := false, executed := [], changed := [], listed := ["alpha".toList, "beta".toList], chmod := [] } := by decide
+
+/-- `Holds` is false of a listing that does not enter a root which is a link (seeded C16-21) -/
+example : Holds { op := .list, root := "/cfg/plugins".toList, name := [], src := [], overwrite := false, trusted := true, cwd := [], path := [], peers := [], history := [], fs := linkedFS }
+    { err := false, executed := [], changed := [], listed := [], chmod := [] } = false := by decide
+
+/-- through the link: lookup runs the plugin of the physical root, install and uninstall work in it -/
+example : run { op := .get, root := "/cfg/chain".toList, name := "alpha".toList, src := [], overwrite := false, trusted := true, cwd := [], path := [], peers := [], history := [], fs := linkedFS } =
+    { err := false, executed := ["/vol/x/plugins/alpha/notation-alpha".toList], changed := [], listed := [], chmod := [] } := by decide
+example : run { op := .install, root := "/cfg/notation/plugins".toList, name := "new".toList, src := "/dl/notation-new".toList, overwrite := false, trusted := true, cwd := [], path := [], peers := [], history := [], fs := linkedFS } =
+    { err := false, executed := ["/dl/notation-new".toList],
+      changed := ["/vol/x/plugins/new".toList, "/vol/x/plugins/new/notation-new".toList], listed := [], chmod := [] } := by decide
+
+/-- `Holds` is false of an uninstall that also removed the link the root is reached through, and of a
+lookup that refuses an installed plugin because its resolved path "leaves" the configured root -/
+example : Holds { op := .uninstall, root := "/cfg/plugins".toList, name := "alpha".toList, src := [], overwrite := false, trusted := true, cwd := [], path := [], peers := [], history := [], fs := linkedFS }
+    { err := false, executed := [], changed := ["/cfg/plugins".toList, "/vol/x/plugins/alpha".toList, "/vol/x/plugins/alpha/notation-alpha".toList], listed := [], chmod := [] } = false := by decide
+example : Holds { op := .get, root := "/cfg/plugins".toList, name := "alpha".toList, src := [], overwrite := false, trusted := true, cwd := [], path := [], peers := [], history := [], fs := linkedFS }
+    errObs = false := by decide
 
 /-- `Holds` is false of the unguarded behaviour: the victim directory removed ... -/
 example : Holds { op := .uninstall, root := "/a/p".toList, name := "../victim".toList, src := [], overwrite := false, trusted := true, cwd := [], path := [], peers := [], history := [], fs := sampleFS }
